@@ -54,6 +54,9 @@ def items_table(prog):
                               adts=("a2ml::GenericIfDataTaggedItem",), cursors=False)
     for fn, rows in extra.items():
         have = out.setdefault(fn, [])
+        # "create the per-tag list if it is not there yet" (insert guarded by a lookup in the same map) is bookkeeping that the
+        # entry API does without a row; the item itself is stored by the `push` row
+        rows = [r for r in rows if not (r[0] == "call insert()" and any(re.search(r"contains_key\(|discr\(lookup\(", g) for g in r[1]))]
         have.extend(rows)
         have.sort(key=lambda r: (r[0], r[1]))
     return out
